@@ -246,12 +246,22 @@ class Composition(Loggable):
 
         self.logger.info("run composition")
         while len(time_components) > 0:
-            sort_components = list(time_components)
+            # finished components are not updated any more
+            sort_components = [
+                m for m in time_components if m.status != ComponentStatus.FINISHED
+            ]
+            if len(sort_components) == 0:
+                break
             sort_components.sort(key=lambda m: m.time)
             to_update = sort_components[0]
             updated = self._update_recursive(to_update)
             self._check_status(
-                updated, [ComponentStatus.VALIDATED, ComponentStatus.UPDATED]
+                updated,
+                [
+                    ComponentStatus.VALIDATED,
+                    ComponentStatus.UPDATED,
+                    ComponentStatus.FINISHED,
+                ],
             )
 
             any_running = False
